@@ -3,6 +3,9 @@ package internal
 import "math/rand"
 
 func subset(set []string, sub int) []string {
+	// set 可能是订阅者共享的快照（Subscriber.Values 直接返回内部切片），
+	// 多个监听回调会并发到达这里；原地洗牌会互相踩踏，得到重复和缺失的地址。
+	set = append([]string(nil), set...)
 	rand.Shuffle(len(set), func(i, j int) {
 		set[i], set[j] = set[j], set[i]
 	})
